@@ -29,7 +29,9 @@ META = {
 }
 CASE_TIMEOUT = 180
 KINDS = ["s2p:rigid_body", "s2p:rigid_body", "s2p:point_mass", "s2s:rigid_body:rigid_body", "s2s:rigid_body:point_mass",
-         "s2s:point_mass:rigid_body", "s2s:rigid_body:moving_frame", "s2s:point_mass:point_mass"]
+         "s2s:point_mass:rigid_body", "s2s:rigid_body:moving_frame", "s2s:point_mass:point_mass",
+         # a partner whose prescribed motion spins (a sphere on a driven spindle): its surface velocity has an Omega x r n part
+         "s2s:rigid_body:rotating_frame", "s2s:rotating_frame:point_mass", "s2s:turntable:rigid_body"]
 
 
 def cases(tier, seed):
